@@ -242,6 +242,22 @@ def _roots_of_kw(repo, f, fl, cfg, call, name, pos=None):
     return v, fl.roots(v, cfg.node_of(call))
 
 
+def _closure(fl, cfg, e: ast.AST, at: int, depth: int = 3) -> list[ast.AST]:
+    """e together with the defining expressions of the local names in it (transitively)"""
+    out, seen, work = [], set(), [(e, at, depth)]
+    while work and len(out) < 30:
+        x, at_, d_ = work.pop()
+        out.append(x)
+        if d_ <= 0:
+            continue
+        for nm in [n for n in ast.walk(x) if isinstance(n, ast.Name) and isinstance(n.ctx, ast.Load) and id(n) not in fl.comp_bind]:
+            for s_ in fl.rdefs(nm.id, at_):
+                if s_.value is not None and id(s_.value) not in seen:
+                    seen.add(id(s_.value))
+                    work.append((s_.value, s_.node, d_ - 1))
+    return out
+
+
 def _returned_first(f: Def, calls: list) -> list:
     """constructor calls of f, the one whose result is returned first (a scratch object built
     on the way is not the fused operation)"""
@@ -368,6 +384,19 @@ def fuse_prov(ctx: Ctx) -> None:
                 notnone = any((not pol) and isinstance(t, ast.Compare) and isinstance(t.ops[0], ast.Is) and isinstance(t.left, ast.Name) and t.left.id == pvar for t, pol in facts)
                 e_ok = notnone and unparse(c.args[0]) == f"{pvar}.source_array_names"
         ok = a_ok and e_ok
+    if not ok and v is not None:
+        # any other spelling (comprehension, chain.from_iterable, …): the expression that
+        # builds the names enumerates the predecessors in order, takes the successor's i-th
+        # own name where the predecessor is None and the predecessor's names otherwise
+        exprs = _closure(fl, cfg, v, cfg.node_of(po[0]))
+        txt = " ".join(unparse(x, 400) for x in exprs)
+        enum = any(isinstance(c, ast.Call) and isinstance(c.func, ast.Name) and c.func.id == "enumerate" and c.args and isinstance(c.args[0], ast.Name) and c.args[0].id == preds for x in exprs for c in ast.walk(x))
+        own = any(isinstance(sub, ast.Subscript) and unparse(sub.value) == f"{succ}.source_array_names" and isinstance(sub.slice, ast.Name) for x in exprs for sub in ast.walk(x))
+        theirs = any(isinstance(a_, ast.Attribute) and a_.attr == "source_array_names" and isinstance(a_.value, ast.Name) and a_.value.id != succ for x in exprs for a_ in ast.walk(x))
+        reordered = any(isinstance(c, ast.Call) and isinstance(c.func, ast.Name) and c.func.id in ("reversed", "sorted", "set") for x in exprs for c in ast.walk(x))
+        none_test = " is None" in txt or " is not None" in txt
+        if enum and own and theirs and none_test and not reordered and "append" not in txt.split("source_array_names")[0][-0:0]:
+            ok = True
     ctx.ob(f, po[0], ok, "fuse_multiple: source_array_names = predecessors' names in operand order, the successor's own name at unfused positions", sel="prov:fuse_multiple:source_array_names")
     fbs = repo.calls_to(f, f"{A.PBW}.fuse_blockwise_specs")
     ok = False
@@ -405,6 +434,20 @@ def fuse_prov(ctx: Ctx) -> None:
                     if isinstance(tv, ast.Name) and c.args and unparse(c.args[0]) == f"{tv.id}.reads_map":
                         upd_ok = True
         ok = init_ok and upd_ok
+    if not ok and v is not None:
+        # other spellings of "a new mapping holding the successor's and every predecessor's
+        # read proxies": {**a, **b}, a | b, toolz.merge(a, *(p.reads_map for p in preds)), …
+        exprs = _closure(fl, cfg, v, cfg.node_of(bs[0]))
+        has_succ = any(isinstance(a_, ast.Attribute) and a_.attr == "reads_map" and isinstance(a_.value, ast.Name) and a_.value.id == succ for x in exprs for a_ in ast.walk(x))
+        over_preds = any(
+            isinstance(g, (ast.GeneratorExp, ast.ListComp, ast.DictComp)) and any(isinstance(gen.iter, ast.Name) and gen.iter.id == preds and not gen.ifs for gen in g.generators) and any(isinstance(a_, ast.Attribute) and a_.attr == "reads_map" for a_ in ast.walk(g))
+            for x in exprs
+            for g in ast.walk(x)
+        )
+        in_place = any(isinstance(c, ast.Call) and isinstance(c.func, ast.Attribute) and c.func.attr in ("update", "setdefault") and unparse(c.func.value).endswith(f"{succ}.reads_map") for c in f.own_nodes())
+        fresh = any(isinstance(x, (ast.Dict, ast.DictComp)) or (isinstance(x, ast.Call) and (attr_chain(x.func) or "").split(".")[-1] in ("merge", "dict", "ChainMap")) or (isinstance(x, ast.BinOp) and isinstance(x.op, ast.BitOr)) for x in exprs)
+        if has_succ and over_preds and fresh and not in_place:
+            ok = True
     ctx.ob(f, bs[0], ok, "fuse_blockwise_specs: reads_map = copy of the successor's reads ∪ every predecessor's reads", sel="prov:fuse_blockwise_specs:reads_map")
     # predecessor key functions and block functions: same loop, same key
     stores = {}
@@ -424,6 +467,29 @@ def fuse_prov(ctx: Ctx) -> None:
             outer = cfg.nodes[cfg.nodes[na].loops[-2]].stmt
             keys_from = "writes_map" in unparse(inner.iter) and isinstance(outer.iter, ast.Name) and outer.iter.id == preds and unparse(a.value.value) in unparse(inner.iter)
         ok = same_loop and same_key and same_src and keys_from
+    if not stores:
+        # two dictionary comprehensions over the same generators
+        dcs = {}
+        for n in f.own_nodes():
+            if isinstance(n, ast.DictComp) and isinstance(n.value, ast.Attribute) and n.value.attr in ("back_key_function", "function"):
+                dcs[n.value.attr] = n
+        if set(dcs) == {"back_key_function", "function"}:
+            a, b = dcs["back_key_function"], dcs["function"]
+            gens = lambda d_: [(unparse(g.target), unparse(g.iter), [unparse(i_) for i_ in g.ifs]) for g in d_.generators]
+            ok = (
+                gens(a) == gens(b)
+                and unparse(a.key) == unparse(b.key)
+                and unparse(a.value.value) == unparse(b.value.value)
+                and len(a.generators) == 2
+                and isinstance(a.generators[0].iter, ast.Name)
+                and a.generators[0].iter.id == preds
+                and "writes_map" in unparse(a.generators[1].iter)
+                and unparse(a.value.value) in unparse(a.generators[1].iter)
+                and unparse(a.key) == unparse(a.generators[1].target)
+                and not a.generators[0].ifs
+                and not a.generators[1].ifs
+            )
+            stores = {"function": b}
     ctx.ob(f, stores.get("function", f.node), ok, "fuse_blockwise_specs: predecessor key functions and block functions are registered in one loop under the same array name (a predecessor's writes_map key)", sel="prov:fuse_blockwise_specs:function-dicts", props=["C02", "C15"])
 
 
